@@ -265,6 +265,22 @@ def exec_case(case, ctx):
                 try:
                     if case['via'] == 'hash_file':
                         r = gh.hash_file(io.BytesIO(data), [case['name']])
+                    elif case['via'] == 'verify_path':
+                        # an entry carrying a correct, computable checksum next to
+                        # one under a name that cannot be computed here
+                        from gemato.manifest import ManifestEntryDATA
+                        with common.Scratch('vf-c17-') as d:
+                            p = os.path.join(d, 'f')
+                            with open(p, 'wb') as f:
+                                f.write(data)
+                            sums = {'SHA512': hashlib.sha512(data).hexdigest(),
+                                    case['name']: 'ab' * 20}
+                            if case.get('order'):
+                                sums = dict(reversed(list(sums.items())))
+                            e = ManifestEntryDATA('f', len(data), sums)
+                            r = gv.verify_path(p, e)
+                        if r[0] is False and any(case['name'] == d[0] for d in r[1]):
+                            return      # reported as a difference under that name
                     else:
                         with common.Scratch('vf-c17-') as d:
                             p = os.path.join(d, 'f')
@@ -408,6 +424,10 @@ def run_names(u, ctx):
     for nm in unsupported_manifest + unknown:
         exec_case({'kind': 'unsupported', 'via': 'manifest', 'name': nm,
                    'content': content}, ctx)
+    for nm in unsupported_manifest + unknown:
+        if nm:
+            exec_case({'kind': 'unsupported', 'via': 'verify_path', 'name': nm,
+                       'order': u['i'] % 2, 'content': content}, ctx)
     for nm in ['nosuchhash', 'SHA256', 'whirlpool-x', 'MD5', ''] + xof_names():
         if nm in hashlib.algorithms_available and not nm.startswith('shake'):
             continue
